@@ -85,6 +85,8 @@ def run(ctx):
         selection(ctx, rng, xr)
     for i, rng in ctx.cases("track", ctx.n(40, 1000)):
         track(ctx, rng, xr)
+    for i, rng in ctx.cases("lazy_then_edit", ctx.n(60, 1500)):
+        lazy_then_edit(ctx, rng, xr, ops)
     tr.stats()
     sys.setswitchinterval(1e-5)   # multiply GIL hand-offs between native calls
     for i, rng in ctx.cases("stress", ctx.n(32, 400)):
@@ -206,6 +208,53 @@ def combined(ctx, rng, xr, dask, ops):
         rec.bad("combined", key, {"expression": "op(a) - op(b)", "got": diff.values, "want": want.values}, "results-of-different-datasets-mixed-in-one-computation")
         return
     rec.ok("combined", key)
+
+
+def lazy_then_edit(ctx, rng, xr, ops):
+    """A lazy result belongs to the data it was requested for: when the caller relabels or replaces coordinates of the
+    same object afterwards and only then computes, the result is still that of the spectra as they were at the call."""
+    rec = ctx.rec
+    nf = int(rng.choice([5, 9]))
+    f, fm = gen.freq_grid(rng, nf=nf)
+    th, dd, dmeta = gen.dir_grid(rng, nd=int(rng.choice([8, 12])), full=True, exact=True)
+    lnames, lsizes = gen.lead_dims(rng, nlead=int(rng.choice([1, 2])), maxsize=3)
+    A, _ = gen.stack_spectra(rng, f, th, lsizes, cls="multimodal")
+    x = gen.make_da(A, f, th, lnames, lsizes)
+    aux = O.make_aux(rng, x, xr)
+    name = str(rng.choice(["hs", "tm01", "dm", "dspr", "tp", "dpm", "dp", "ptm1", "ptm2", "ptm3", "ptm4", "smooth", "split", "split_dir", "rotate", "interp", "stats", "uss_x", "bbox"]))
+    op = ops[name]
+    if nf < op.min_nf or ((op.exact or op.peak or name in ("dp", "dm")) and ties(x, op)):
+        rec.skip("lazy_then_edit", "not applicable / tied")
+        return
+    try:
+        R0 = op.fn(x, aux)
+        R0 = R0.compute() if hasattr(R0, "compute") else R0
+    except Exception as e:
+        rec.skip("lazy_then_edit", "in-memory call raised %s" % type(e).__name__)
+        return
+    xc = x.chunk({lnames[0]: 1})
+    edit = str(rng.choice(["dir_relabelled", "freq_scaled", "dir_reversed_labels"]))
+    key = "lazy_then_edit|%s|%s" % (name, edit)
+    try:
+        lazy = op.fn(xc, aux)
+        if edit == "dir_relabelled":
+            xc["dir"] = (xc.dir.values + 90.0) % 360.0
+        elif edit == "freq_scaled":
+            xc["freq"] = xc.freq.values * 1.5
+        else:
+            xc["dir"] = xc.dir.values[::-1].copy()
+        R1 = lazy.compute(scheduler="synchronous") if hasattr(lazy, "compute") else lazy
+    except Exception as e:
+        rec.bad("lazy_then_edit", key, {"raised": repr(e)[:300]}, "lazy-result-fails-after-caller-edit")
+        return
+    f32 = False
+    ok, det = compare_op(op, R0, R1, f32, rtol=(1e-5 if op.peak else 1e-12), circ_atol=(1e-3 if op.peak else 1e-9), scale=signed_scale(op, x))
+    if ok is None:
+        rec.skip("lazy_then_edit", "cancellation")
+    elif ok:
+        rec.ok("lazy_then_edit", key)
+    else:
+        rec.bad("lazy_then_edit", key, {"op": name, "edit": edit, "diff": det}, "lazy-result-follows-later-edits-of-the-caller-object")
 
 
 def track(ctx, rng, xr):
